@@ -2,5 +2,5 @@ From Coq Require Import Extraction ExtrOcamlBasic ZArith List QArith.
 From MV Require Import Geo.WindingDefs Geo.MeasureDefs Topo.CheckMeshDefs.
 Extraction Language OCaml.
 Extraction "../build/ml/c18_model.ml" winding_fast volume6 vol_check area_check bbox_check
-  mingap2 tri_dist2 qtri_of seg_crossings polys_wind shadow_count decompose uf_edges comp_labels mesh_edges
+  mingap2 tri_dist2 pt_tri_dist2 o3 det3 orient2 norm2 cross psub qtri_of seg_crossings polys_wind shadow_count decompose uf_edges comp_labels mesh_edges
   check_mesh Qle_bool Qeq_bool Qmult Qplus Qminus Qred inject_Z Z.sqrt Z.mul Z.add Z.sub Z.compare Z.abs.
